@@ -18,7 +18,7 @@ Record invoice_view := {
   iv_amount : option N;           (* invoice.amount_milli_satoshis() *)
   iv_sig_ok : bool;               (* invoice.check_signature().is_ok() *)
   iv_payee : list N;              (* invoice.get_payee_pub_key(), 33 bytes *)
-  iv_recovered : option (list N); (* key recovered from the signature (harness oracle only; not read by the code) *)
+  iv_recovered : option (list N); (* the key the harness verified the signature against with secp256k1: the explicit payee key if the invoice has one and the signature verifies against it, else the key recovered from the signature (oracle only; not read by the code) *)
   iv_last_hops : list (list N)    (* src_node_id of the last hop of every non-empty route hint *)
 }.
 
